@@ -284,8 +284,53 @@ def run_case(case):
                     if not close(sim[nm].to_numpy(), refs[nm], rt, at):
                         viol('side-by-side-value-differs', f'formula {nm}: simulate={sim[nm].tolist()} ref={refs[nm].tolist()}',
                              formulas=forms)
+                # history: one of the formulas evaluated directly (ids re-prepared and restored), then simulate again
+                if case['i'] % 2 == 0:
+                    nm0 = next(iter(refs))
+                    direct = objs[nm0].get_value_c(database=build.database(spec), prepare_ids=True)
+                    rec.ev()
+                    if not close(direct, refs[nm0], *_tol(exprs.ops_in(forms[nm0], spec['shared']))):
+                        viol('direct-evaluation-of-formula-owned-by-BIOGEME-differs', f'{np.asarray(direct).tolist()} vs {refs[nm0].tolist()}')
+                    sim2 = bg.simulate({n: bv[n] for n in free})
+                    rec.ev()
+                    rec.c('simulate_after_direct_evaluation')
+                    for nm in refs:
+                        if not np.array_equal(sim2[nm].to_numpy(), sim[nm].to_numpy(), equal_nan=True):
+                            viol('simulate-changes-after-direct-evaluation-of-one-formula',
+                                 f'formula {nm}: {sim2[nm].tolist()} vs {sim[nm].tolist()}', formulas=forms)
+                            break
             except BaseException as e:
                 viol(f'simulate-raises-{type(e).__name__}', f'{e}', formulas=forms)
+
+    # (i) history: the SAME expression object on another database (columns in another order, rows permuted and one
+    #     repeated), then on the first one again; ids prepared for one evaluation must not leak into the next
+    if case['i'] % 3 == 1:
+        import pandas as pd
+        import biogeme.database as dbm
+
+        rr = random.Random(case['i'] * 13 + 5)
+        cols = list(spec['data'])
+        rr.shuffle(cols)
+        nrow = len(ref)
+        perm = list(range(nrow))
+        rr.shuffle(perm)
+        perm.append(perm[0])
+        data2 = {c: [spec['data'][c][k] for k in perm] for c in cols}
+        data2['zz_extra_column'] = [float(k) for k in range(len(perm))]
+        order2 = ['zz_extra_column'] + cols if rr.random() < 0.5 else cols + ['zz_extra_column']
+        db2 = dbm.Database('gen2', pd.DataFrame({c: data2[c] for c in order2}))
+        ok, v2 = guarded('get_value_c-second-database', lambda: expr.get_value_c(database=db2, prepare_ids=True))
+        if ok:
+            rec.ev()
+            rec.c('second_database_compared')
+            if not close(v2, ref[perm], rtol, atol):
+                viol('same-expression-on-second-database-differs',
+                     f'columns {order2}, rows {perm}: {np.asarray(v2).tolist()} vs {ref[perm].tolist()}')
+        ok, v3 = guarded('get_value_c-first-database-again', lambda: expr.get_value_c(database=db, prepare_ids=True))
+        if ok:
+            rec.ev()
+            if not close(v3, va, 1e-13, 1e-15):
+                viol('value-changes-after-evaluation-on-another-database', f'{np.asarray(v3).tolist()} vs {va.tolist()}')
 
     # (e') pure-Python evaluator on the data-free version of row 0
     if case['i'] % 2 == 1 or case['mode'] == 'force':
@@ -339,7 +384,8 @@ def finalize(cov, tier):
     cov['sweep_pairs_unreached'] = holes
     if holes > 0.25 * total:
         out.append(f'position sweep reached only {total - holes}/{total} (parent, slot, child) triples')
-    for k in ('python_evaluator_compared', 'side_by_side_runs', 'dag_vs_tree_compared', 'handover_decoded'):
+    for k in ('python_evaluator_compared', 'side_by_side_runs', 'dag_vs_tree_compared', 'handover_decoded',
+              'second_database_compared', 'simulate_after_direct_evaluation'):
         if cov.get(k, 0) == 0:
             out.append(f'monitor never evaluated: {k}')
     # keep the evidence readable: fold the per-triple / per-edge counters
